@@ -70,6 +70,36 @@ def rule_inplace_effect(ctx, family=None, rule="inplace-effect", floor=200, cont
         if not subj:
             r.skip(f.fq, "no subject identified (nothing returned in place, not a method)")
             continue
+        if f.name == "__init__" and f.posparams and f.cls is not None:
+            # a constructor that copies under inplace=False must not *retain* the caller's network either: its
+            # later methods (run, normalize, compress ...) would then mutate it.  Only parameters stored in an
+            # attribute that the class uses as a tensor network are considered.
+            kept = {o[1] for o in sF.holds.get(f.posparams[0], ()) if o[0] == "P"} & subj
+            for prm in sorted(kept):
+                attrs = set()
+                for c_ in f.cls.mro:
+                    ini = c_.methods.get("__init__")
+                    if ini is None or ini.is_alias:
+                        continue
+                    for n_ in ast.walk(ini.node):
+                        if isinstance(n_, ast.Assign) and any(isinstance(t_, ast.Attribute) and src_of(t_.value) == "self" for t_ in n_.targets):
+                            if any(isinstance(x_, ast.Name) and x_.id == prm for x_ in ast.walk(n_.value)):
+                                attrs |= {t_.attr for t_ in n_.targets if isinstance(t_, ast.Attribute)}
+                network_attr = False
+                for c_ in f.cls.mro:
+                    for m_ in c_.methods.values():
+                        if m_.is_alias or isinstance(m_.node, ast.Lambda):
+                            continue
+                        for x_ in ast.walk(m_.node):
+                            if isinstance(x_, ast.Attribute) and x_.attr in ("tensor_map", "ind_map", "tag_map", "tensors") and isinstance(x_.value, ast.Attribute) \
+                                    and x_.value.attr in attrs and src_of(x_.value.value) == "self":
+                                network_attr = True
+                if not network_attr:
+                    continue
+                r.bad(Finding(
+                    rule, f.qualname,
+                    f"under inplace=False the constructor keeps a reference to the caller's `{prm}` (stored on self): every later in-place "
+                    f"method of the object then mutates the caller's network", where=f"{f.module.relpath}:{f.lineno}", operand=prm + ":retained"))
         for prm in sorted(subj):
             construct = f"{f.qualname}"
             muts = [m for m in sF.mut.get(prm, []) if m.level in ("obj", "elem")]
